@@ -127,6 +127,8 @@ def gen_box(rnd, name, n, opts=None):
 def gen_call(rnd, name, opts=None):
     opts = opts or {}
     lo, hi = arity_range(name, opts.get("max_arity", 5))
+    if name != "element_iv":
+        lo = min(hi, max(lo, opts.get("min_arity", lo)))
     n = rnd.randint(lo, hi)
     if name == "lexicographic_leq" and n % 2:
         n += 1
